@@ -339,7 +339,15 @@ fn handle_one_request(
     if let Some(hook) = &config.pre_routing_hook {
         match (hook)(&mut request, response) {
             PreRoutingAction::Proceed => {}
-            PreRoutingAction::Drop => return Ok(response.keep_alive),
+            PreRoutingAction::Drop => {
+                // the request's body is still on the wire: discard it, or it is parsed as the next request
+                drop(BodyReader::from_request(
+                    &buf[request.buf_offset..],
+                    stream,
+                    &request.headers,
+                ));
+                return Ok(response.keep_alive);
+            }
         }
     }
 
